@@ -366,6 +366,100 @@ def cfg_of(f):
     return c
 
 
+def zip_alignment(fnode):
+    """Lockstep lists.  `zip(L, S)` pairs the i-th element of L with the i-th element of S; when L was built by appends in
+    a `for v in S:` loop, that only lines up if every trip through the loop body appends exactly one element.
+    Returns (number of such (L, S, loop) instances, [(zip call, L, S, loop, possible append counts)] for the bad ones).
+    Undecidable shapes (appends inside nested loops, other mutations of L) are skipped, not reported."""
+    cfg = None
+    instances, bad = 0, []
+    zips = [c for c in walk_no_nested(fnode) if isinstance(c, ast.Call) and isinstance(c.func, ast.Name) and c.func.id == "zip" and len(c.args) >= 2 and all(isinstance(a, ast.Name) for a in c.args)]
+    if not zips:
+        return 0, []
+    for z in zips:
+        for la in z.args:
+            for sa in z.args:
+                if la is sa:
+                    continue
+                if cfg is None:
+                    cfg = CFG(fnode)
+                # L: follow `coords = coords2` aliases back to the list that was built
+                lname, at, hops = la.id, z, 0
+                built = None
+                while hops < 3:
+                    v = single_reaching_value(cfg, at, lname)
+                    if v is None:
+                        break
+                    if isinstance(v, ast.List) and not v.elts:
+                        built = (lname, v)
+                        break
+                    if isinstance(v, ast.Name):
+                        at, lname, hops = getattr(v, "_parent", None), v.id, hops + 1
+                        continue
+                    break
+                if built is None:
+                    continue
+                lname, init = built
+                init_stmt = getattr(init, "_parent", None)
+                # the loop over S in which L is filled (S must be the very same name, never rebound in the function)
+                if sum(1 for y in walk_no_nested(fnode) if isinstance(y, ast.Name) and y.id == sa.id and not isinstance(y.ctx, ast.Load)) > 0:
+                    continue
+                loops = [l for l in walk_no_nested(fnode) if isinstance(l, ast.For) and isinstance(l.iter, ast.Name) and l.iter.id == sa.id and l.lineno > getattr(init_stmt, "lineno", 0) and l.lineno < z.lineno and any(_is_append(c, lname) for c in ast.walk(l))]
+                # nothing else may fill L
+                others = [c for c in walk_no_nested(fnode) if isinstance(c, ast.Call) and isinstance(c.func, ast.Attribute) and isinstance(c.func.value, ast.Name) and c.func.value.id == lname and c.func.attr in ("append", "insert", "extend", "pop", "remove", "clear") and not any(c in list(ast.walk(l)) for l in loops) and getattr(init_stmt, "lineno", 0) < c.lineno < z.lineno]
+                if len(loops) != 1 or others:
+                    continue
+                counts = _append_counts(loops[0].body, lname)
+                if counts is None:
+                    continue
+                instances += 1
+                if counts != {1}:
+                    bad.append((z, lname, sa.id, loops[0], counts))
+    return instances, bad
+
+
+def _is_append(c, name):
+    return isinstance(c, ast.Call) and isinstance(c.func, ast.Attribute) and c.func.attr in ("append", "insert") and isinstance(c.func.value, ast.Name) and c.func.value.id == name
+
+
+def _append_counts(stmts, name):
+    """possible numbers of `name.append(...)` along the paths through one loop iteration; None when not decidable;
+    a path that leaves the loop early (`break`) counts as 0 appended for the remaining elements (reported as -1)"""
+    done = set()  # counts of paths that ended the iteration early (continue)
+    def seq(ss, acc):
+        cur = set(acc)
+        for st in ss:
+            if not cur:
+                break
+            if isinstance(st, ast.Expr) and _is_append(st.value, name):
+                cur = {c + 1 for c in cur}
+            elif isinstance(st, ast.If):
+                a = seq(st.body, cur)
+                b = seq(st.orelse, cur)
+                if a is None or b is None:
+                    return None
+                cur = a | b
+            elif isinstance(st, ast.Continue):
+                done.update(cur)
+                cur = set()
+            elif isinstance(st, ast.Break):
+                done.add(-1)
+                cur = set()
+            elif isinstance(st, (ast.Raise, ast.Return)):
+                cur = set()
+            elif isinstance(st, (ast.For, ast.While, ast.Try, ast.With, ast.Match)):
+                if any(_is_append(c, name) for c in ast.walk(st)) or any(isinstance(y, (ast.Continue, ast.Break)) for y in ast.walk(st)):
+                    return None
+            elif any(_is_append(c, name) for c in ast.walk(st)):
+                return None  # an append inside an expression we do not model (comprehension, lambda)
+        return cur
+
+    out = seq(stmts, {0})
+    if out is None:
+        return None
+    return out | done
+
+
 def lexical_facts(g, node, stop=None):
     """branch facts under which `node` (inside function g) runs, including the facts under which the closures that
     lexically contain it are defined (up to and including `stop`, or the outermost function)"""
